@@ -208,6 +208,9 @@ func (w *c20World) RoundTrip(req *http.Request) (*http.Response, error) {
 			verdict = "bad" // genuine proof, but the destination's root is not a root of this log: it cannot verify
 		}
 		w.out.T(fmt.Sprintf("proof %d %d %s", first, second, verdict), "ok")
+		if verdict == "ok" && first == w.dsize {
+			w.gateClosed = false
+		}
 		return c20JSON(200, ct.GetSTHConsistencyResponse{Consistency: pf}), nil
 
 	case strings.HasSuffix(req.URL.Path, ct.GetEntriesPath):
@@ -342,7 +345,8 @@ func (w *c20World) getRoot(_ *trillian.GetLatestSignedLogRootRequest) (*trillian
 		panic(err)
 	}
 	w.out.T(fmt.Sprintf("root %d", w.dsize), "ok")
-	w.gateClosed = w.dsize > 0 && !w.p.noCheck && (w.p.fork || w.p.proofMode != "ok" || w.dsize > w.size)
+	// a pass over a non-empty destination root may submit only after the source has served a consistency proof that verifies
+	w.gateClosed = w.dsize > 0 && !w.p.noCheck
 	return &trillian.GetLatestSignedLogRootResponse{SignedLogRoot: &trillian.SignedLogRoot{LogRoot: b}}, nil
 }
 
@@ -716,7 +720,7 @@ func c20Run(out *verifkit.Out, p *c20Params) {
 	}
 	// the gate: no submission may follow a root that was not proven consistent (checked at every AddSequencedLeaves);
 	// and such a run must not report success
-	if w.gateClosed && runErr == nil && !p.cont {
+	if w.gateClosed && runErr == nil && !p.cont && (p.fork || p.proofMode != "ok") {
 		if w.maxSTH > 0 {
 			out.Fail("gate-success "+key, "Run returned nil although the destination's non-empty root could not be proven consistent with the source STH")
 		}
@@ -729,7 +733,7 @@ func c20Run(out *verifkit.Out, p *c20Params) {
 		}
 	}
 	// a pass that reported success has mirrored every index of its range
-	if runErr == nil && !timedOut && w.runaway == "" && !cancelled && !w.gateClosed {
+	if runErr == nil && !timedOut && w.runaway == "" && !cancelled && !(w.gateClosed && (p.fork || p.proofMode != "ok")) {
 		lo, hi := int64(0), w.maxSTH
 		if !p.cont {
 			if p.cfgStart >= 0 {
